@@ -50,13 +50,16 @@ CLAIMED = {
          "The serial fuel theorem assumes the clock advances dt >= 0. The UDP read_until_timeout defect found here was repaired (fix: commit).",
     technique="Coq induction over fuel/oracle with a stream-conservation invariant; differential testing with scripted device"),
  "C16": dict(category="proof", design_ref="7 (C16)",
-    text="16 Coq theorems (all closed; all texts, types and data): the comment scanner is exactly the regex language and cuts each line at its first '#' outside a string; duplicate keys "
-         "rejected; dump output is untouched by stripping; typed parse is total with located errors, strict (accept iff no offending item), and round-trips both ways up to the documented "
-         "int->float / list->tuple / defaults. Tie: generated documents and dynamically generated @configstruct classes (plus the shipped Cfg* structures) through the real functions, "
-         "compared with the model (result, exception class, item path); independent oracles.",
+    text="20 Coq theorems (all closed; all texts, annotations, types and data): the comment scanner is exactly the regex language and cuts each line at its first '#' outside a string; duplicate "
+         "keys rejected; dump output is untouched by stripping; typed parse is total with located errors, strict (accept iff no offending item), and round-trips both ways up to the "
+         "documented int->float / list->tuple / defaults, incl. bare List/Dict/Tuple; the class check (_check_config_struct_type) accepts exactly the supported annotation grammar with "
+         "located refusals, and a checked class parses inside that grammar (the unsupported-type branches are unreachable). Tie: generated documents (incl. a fixed bucket of Unicode line "
+         "separators in comments and strings) and dynamically generated @configstruct classes with supported and unsupported annotations (plus the shipped Cfg* structures) through the "
+         "real functions, compared with the model (result, exception class, item path); file round trips through a scratch file; independent oracles.",
     note="Trusted: Coq kernel+vm_compute; hand model; harness class builder/path reconstruction; json.loads/json.dumps and float(int) are Section variables (json round trip is a premise "
-         "of C16_dump_load only); the re engine is replaced by the scanner and compared on every case. _check_config_struct_type is not modelled. Two defects found were repaired.",
-    technique="structural induction over the type grammar; regex-language equivalence; differential testing"),
+         "of C16_dump_load only); the re engine is replaced by the scanner and compared on every case; typing's annotation identity/cache behaviour is outside the model; file I/O is "
+         "oracle-only. Two defects found were repaired by fix: commits.",
+    technique="mutual structural induction over type and annotation grammars; regex-language equivalence; differential testing"),
  "C18": dict(category="proof", design_ref="7 (C18)",
     text="20 Coq theorems (all closed, unbounded) on an executable model of the UDP packet codecs, a transcription of fnmatch.translate, the responder and the collector: pack/unpack round "
          "trip incl. 63/64-byte names, exact unpack strictness, matcher sound and complete w.r.t. a declarative Glob relation, answers iff both filters match with echoed id/timestamp "
